@@ -21,7 +21,8 @@ var vfClock int64
 
 func vfInstallClock(start int64) {
 	atomic.StoreInt64(&vfClock, start)
-	nowFunc = func() time.Time { return time.Unix(0, atomic.LoadInt64(&vfClock)) }
+	// the clock hook is reached through export/zz_vfexport.go (overlay), the only file naming it
+	VfSetNowFunc(func() time.Time { return time.Unix(0, atomic.LoadInt64(&vfClock)) })
 }
 
 func vfNow() int64 { return atomic.LoadInt64(&vfClock) }
